@@ -9,9 +9,9 @@ use std::sync::Arc;
 
 use iroh::{endpoint::presets, Endpoint, PublicKey, RelayMode, SecretKey};
 use iroh_docs::{
-    actor::SyncHandle,
+    actor::{OpenOpts, SyncHandle},
     engine::verif::{LiveActor, SyncReason, ToLiveActor, VerifPeerState},
-    net::{AbortReason, AcceptError, AcceptOutcome, ConnectError, SyncFinished},
+    net::{verif::BobState, AbortReason, AcceptError, AcceptOutcome, ConnectError, SyncFinished},
     store::Store,
     Capability, NamespaceId, NamespaceSecret, SyncOutcome,
 };
@@ -268,6 +268,143 @@ impl World {
         Ok(())
     }
 
+    /// Deliver a request through the REAL accepting session driver: `BobState::run` over an
+    /// in-memory pipe, its accept callback answered by the real `AcceptSyncRequest` handler of the
+    /// acceptor's live actor, and its real result (exactly as `handle_connection` builds it) fed to
+    /// the real completion handler. This covers the glue between the wire driver's errors and the
+    /// slot bookkeeping, which the synthetic session ends cannot.
+    async fn deliver_integrated(&mut self, idx: usize, rng: &mut Rng) -> Result<(), Viol> {
+        use tokio::io::AsyncWriteExt;
+        let r = self.reqs.remove(idx);
+        let (x, y) = (r.from, r.to);
+        let ns = self.ns;
+        let (xid, _yid) = (self.nodes[x].id, self.nodes[y].id);
+        // sometimes the acceptor's replica is closed in the store actor behind the live actor's back
+        // (e.g. a handle closed once too often): processing the first message then fails locally
+        let local_failure = self.syncing[y] && rng.chance(1, 3);
+        if local_failure {
+            let _ = self.nodes[y].sync.close(ns).await;
+        }
+        let script = rng.below(5);
+        let before = self.running(y, x);
+        let (local, remote) = tokio::io::duplex(1 << 16);
+        let (lr, lw) = tokio::io::split(local);
+        let sync = self.nodes[y].sync.clone();
+        let (req_tx, mut req_rx) = mpsc::channel::<(NamespaceId, PublicKey, oneshot::Sender<AcceptOutcome>)>(1);
+        let bob = async move {
+            let mut st = BobState::new(xid);
+            let res = st
+                .run(lw, lr, sync, move |n, p| {
+                    let tx = req_tx.clone();
+                    async move {
+                        let (rtx, rrx) = oneshot::channel();
+                        let _ = tx.send((n, p, rtx)).await;
+                        rrx.await.unwrap_or(AcceptOutcome::Reject(AbortReason::InternalServerError))
+                    }
+                })
+                .await;
+            let outcome = st.into_outcome();
+            res.map(|namespace| SyncFinished { namespace, peer: xid, outcome, timings: Default::default() })
+        };
+        let mut decision: Option<AcceptOutcome> = None;
+        let actor = &mut self.nodes[y].actor;
+        let decision_ref = &mut decision;
+        let driver = async move {
+            while let Some((n, p, rtx)) = req_rx.recv().await {
+                let (tx, rx) = oneshot::channel();
+                let _ = actor.verif_on_actor_message(ToLiveActor::AcceptSyncRequest { namespace: n, peer: p, reply: tx }).await;
+                let o = rx.await.unwrap_or(AcceptOutcome::Reject(AbortReason::InternalServerError));
+                *decision_ref = Some(o.clone());
+                let _ = rtx.send(o);
+            }
+        };
+        let zero = vec![0u8; 64];
+        let fp = crate::wire::RawMessage { parts: vec![crate::wire::RawPart::Fingerprint { x: zero.clone(), y: zero, fp: [7; 32] }] }.to_bytes();
+        let adversary = async move {
+            let (mut rr, mut rw) = tokio::io::split(remote);
+            let drain = tokio::spawn(async move {
+                use tokio::io::AsyncReadExt;
+                let mut buf = [0u8; 4096];
+                while let Ok(n) = rr.read(&mut buf).await {
+                    if n == 0 {
+                        break;
+                    }
+                }
+            });
+            let init = crate::props::c09::frame(&crate::props::c09::msg_init(ns.as_bytes(), &fp));
+            match script {
+                0 => {
+                    let _ = rw.write_all(&[0, 0, 0, 3, 9, 9, 9]).await; // garbage before any Init
+                }
+                1 => {
+                    let _ = rw.write_all(&init).await;
+                }
+                2 => {
+                    let _ = rw.write_all(&init).await;
+                    let _ = rw.write_all(&[0, 0, 0, 2, 7, 7]).await; // garbage after Init
+                }
+                3 => {
+                    let _ = rw.write_all(&init).await;
+                    let _ = rw.write_all(&crate::props::c09::frame(&crate::props::c09::msg_sync(&fp))).await;
+                }
+                _ => {
+                    let _ = rw.write_all(&init[..init.len() / 2]).await; // cut inside the Init frame
+                }
+            }
+            let _ = rw.shutdown().await;
+            drop(rw);
+            let _ = tokio::time::timeout(std::time::Duration::from_secs(5), drain).await;
+        };
+        let (res, _, _) = tokio::join!(bob, driver, adversary);
+        let _ = self.nodes[y].actor.verif_take_dials();
+        let after = self.running(y, x);
+        if let (Some(b), Some(a)) = (&before, &after) {
+            if b != a {
+                if let Some(o) = &mut self.oblig[y][x] {
+                    o.origin_changed = true;
+                }
+            }
+        }
+        self.trace.push(format!(
+            "{}: request n{x}->n{y} ({:?}) through the real acceptor (script {script}, local failure {local_failure}) -> decision {:?}, result {}",
+            self.step,
+            r.reason,
+            decision,
+            match &res {
+                Ok(_) => "Ok".to_string(),
+                Err(e) => format!("{e:?}").chars().take(60).collect(),
+            }
+        ));
+        self.kinds.push("deliver-integrated");
+        match &decision {
+            Some(AcceptOutcome::Allow) => {
+                if let Some(s) = self.sessions.iter().find(|s| s.in_progress() && ((s.dialer == x && s.acceptor == y) || (s.dialer == y && s.acceptor == x))) {
+                    return Err(("two-sessions-in-progress-for-the-same-pair".into(), json!({"existing": format!("{s:?}"), "trace": self.trace})));
+                }
+                let id = self.next_id;
+                self.next_id += 1;
+                // the accepting end finishes right now (below); the dialer's end stays in flight
+                self.sessions.push(Sess { id, dialer: x, acceptor: y, reason: r.reason, connect_pending: true, accept_pending: false });
+            }
+            Some(AcceptOutcome::Reject(reason)) => {
+                if !self.syncing[y] && *reason != AbortReason::NotFound {
+                    return Err(("request-for-unsynced-document-not-declined-as-not-found".into(), json!({"trace": self.trace})));
+                }
+                self.replies.push(Reply { req: r.clone(), reason: *reason });
+            }
+            None => {
+                // the acceptor never got to a decision: the dialer just sees its session fail
+                self.replies.push(Reply { req: r.clone(), reason: AbortReason::InternalServerError });
+            }
+        }
+        // the real result goes to the real completion handler, as the live actor's loop does
+        self.accept_finished(y, x, res, "real acceptor").await?;
+        if local_failure {
+            let _ = self.nodes[y].sync.open(ns, OpenOpts::default().sync()).await;
+        }
+        Ok(())
+    }
+
     async fn connect_finished(&mut self, x: usize, y: usize, reason: SyncReason, res: Result<SyncFinished, ConnectError>, what: &str) -> Result<(), Viol> {
         let ns = self.ns;
         let yid = self.nodes[y].id;
@@ -406,6 +543,7 @@ async fn history(ctx: &mut Ctx, _case: u64, rng: &mut Rng, w: &mut World, ns_sec
         enum Ev {
             Decide(usize, usize),
             Deliver(usize),
+            DeliverIntegrated(usize),
             Lose(usize),
             Reply(usize, bool),
             AbortEnd(usize),
@@ -426,6 +564,7 @@ async fn history(ctx: &mut Ctx, _case: u64, rng: &mut Rng, w: &mut World, ns_sec
         }
         for (i, _) in w.reqs.iter().enumerate() {
             evs.push((Ev::Deliver(i), 6));
+            evs.push((Ev::DeliverIntegrated(i), 2));
             evs.push((Ev::Lose(i), 1));
         }
         for (i, _) in w.replies.iter().enumerate() {
@@ -496,6 +635,10 @@ async fn history(ctx: &mut Ctx, _case: u64, rng: &mut Rng, w: &mut World, ns_sec
                         }
                     }
                 }
+            }
+            Ev::DeliverIntegrated(i) => {
+                ctx.count("requests_through_the_real_acceptor", 1);
+                w.deliver_integrated(i, rng).await?;
             }
             Ev::Lose(i) => {
                 let r = w.reqs.remove(i);
